@@ -109,12 +109,110 @@ def fuzz(root, outdir, seed, tier):
     return res
 
 
-def replay_artifact(root, artifact):
+def replay_artifact(root, artifact, target="all", sel=None):
     hdir = os.path.join(root, "harness")
-    b = subprocess.run(["cargo", "+nightly", "fuzz", "build", "all"], cwd=hdir, env=_env(),
+    b = subprocess.run(["cargo", "+nightly", "fuzz", "build", target], cwd=hdir, env=_env(),
                        stdout=subprocess.PIPE, stderr=subprocess.STDOUT, text=True)
     if b.returncode != 0:
         return 2, b.stdout[-2000:]
-    exe = glob.glob(os.path.join(hdir, "fuzz", "target", "*", "release", "all"))
-    rr = subprocess.run([exe[0], "-timeout=60", artifact], stdout=subprocess.PIPE, stderr=subprocess.STDOUT, text=True)
+    exe = glob.glob(os.path.join(hdir, "fuzz", "target", "*", "release", target))
+    env = _env()
+    if sel is not None:
+        env["PVH_FUZZ_SEL"] = str(sel)
+    rr = subprocess.run([exe[0], "-timeout=60", artifact], stdout=subprocess.PIPE, stderr=subprocess.STDOUT,
+                        text=True, env=env)
     return (1 if rr.returncode != 0 else 0), rr.stdout[-3000:]
+
+
+# ---------------------------------------------------------------------------
+# Differential fuzzing: property oracles under coverage guidance (thorough)
+# ---------------------------------------------------------------------------
+
+DIFF_SECONDS = int(os.environ.get("VERIF_DIFF_FUZZ_SECONDS", "60"))
+
+_DIFF_SEEDS = {
+    0: [b"1.0alpha1\x001.0", b"2.5nb3\x002.5.0nb3", b"1.0rc1\x001.0pre1", b"20240101\x002097151", b"1.2.3.4.5.6.7\x001.2.3.4.5.6"],
+    1: [b"{a,b}{c,d}-[0-9]*\x00ac-1", b"a-{b,c}-{d{e,f},g}-h>=1\x00a-b-de-h-2", b"p-1.0{,nb[0-9]*}\x00p-1.0nb2", b"{,lib}foo-{,lib}bar\x00libfoo-bar"],
+    2: [b"foo-[0-9]*\x00foo-1.0", b"?oo-[!a-c]*.tgz\x00foo-d.tgz", b"foo-1.0\x00foo-1.0", b"*\x00", b"[a-z][0-9]\x00a1"],
+    3: [b"\x02\x10\x40\xff2019-08-12\ndevel pkgtools\nA test \xc3\xa9\nx86_64\nDarwin\n18.7.0\ntestpkg-1.0\npkgtools/testpkg\n20091115\n"],
+    4: [b"@comment x\n@name p-1.0\n@cwd /opt\nbin/foo\nb\n@ignore\n+X\n@option preserve\n\n  \n@mode 0644\n@exec true", b"\xef\xbb\xbf@name x\nfoo"],
+    5: [b"\x00\x01\x07\xff\x20a\n$NetBSD: x $\nb\nlast", b"\x03\xff\xff\x00\x10--- a\n+++ b $NetBSD$\n"],
+    6: [b"\x07PKGNAME=a-1\nALL_DEPENDS=b>=1:../../c/b\nPKG_LOCATION=c/a\nPKGNAME=b-2\nCATEGORIES=c\n"],
+    7: [b"$NetBSD: distinfo,v 1.1 $\n\nSHA1 (f.tgz) = ab\nSize (f.tgz) = 1 bytes\nSHA1 (patch-aa) = cd\n"],
+}
+
+
+def diff_stage(sel, pid):
+    """Factory: an `extra` stage that fuzzes oracle `sel` of the diff target
+    and reports artifacts whose panic message names property `pid`."""
+
+    def stage(root, outdir, seed, tier):
+        res = {"failures": [], "inconclusive": [], "coverage": {}}
+        if os.environ.get("VERIF_REPO"):
+            res["coverage"]["diff_fuzz"] = "skipped: VERIF_REPO override is not supported by cargo-fuzz"
+            return res
+        hdir = os.path.join(root, "harness")
+        work = os.path.join(outdir, "diff-fuzz")
+        shutil.rmtree(work, ignore_errors=True)
+        cdir, adir = os.path.join(work, "corpus"), os.path.join(work, "artifacts")
+        os.makedirs(cdir)
+        os.makedirs(adir)
+        for i, d in enumerate(_DIFF_SEEDS.get(sel, [b""])):
+            with open(os.path.join(cdir, f"seed-{i}"), "wb") as f:
+                f.write(bytes([sel]) + d)
+        b = subprocess.run(["cargo", "+nightly", "fuzz", "build", "diff"], cwd=hdir, env=_env(),
+                           stdout=subprocess.PIPE, stderr=subprocess.STDOUT, text=True)
+        if b.returncode != 0:
+            res["inconclusive"].append("diff fuzz target build failed: " + "\n".join(b.stdout.splitlines()[-15:]))
+            return res
+        env = _env()
+        env["PVH_FUZZ_SEL"] = str(sel)
+        jobs = os.cpu_count() or 4
+        t0 = time.time()
+        p = subprocess.run(["cargo", "+nightly", "fuzz", "run", "diff", cdir, "--",
+                            f"-artifact_prefix={adir}/", f"-max_total_time={DIFF_SECONDS}", f"-seed={seed}",
+                            "-timeout=20", "-max_len=1500", "-len_control=0", f"-fork={jobs}", "-ignore_crashes=1",
+                            "-ignore_timeouts=1", "-ignore_ooms=1"],
+                           cwd=hdir, env=env, stdout=subprocess.PIPE, stderr=subprocess.STDOUT, text=True,
+                           timeout=DIFF_SECONDS + 600)
+        stats = re.findall(r"#(\d+): cov: (\d+) ft: (\d+) corp: (\d+)", p.stdout)
+        execs = cov = ft = corp = 0
+        if stats:
+            execs, cov, ft, corp = (int(x) for x in stats[-1])
+        res["coverage"]["diff_fuzz"] = {"oracle_selector": sel, "seconds": round(time.time() - t0, 1),
+                                        "executions": execs, "coverage_edges": cov, "features": ft,
+                                        "corpus_units": corp, "jobs": jobs, "seed": seed}
+        if execs == 0:
+            res["inconclusive"].append("diff fuzzer reported no executions: " + "\n".join(p.stdout.splitlines()[-8:]))
+        exe = glob.glob(os.path.join(hdir, "fuzz", "target", "*", "release", "diff"))
+        other = 0
+        for art in sorted(glob.glob(os.path.join(adir, "*")))[:20]:
+            base = os.path.basename(art)
+            data = open(art, "rb").read()
+            if not exe:
+                continue
+            try:
+                rr = subprocess.run([exe[0], "-timeout=60", art], stdout=subprocess.PIPE, stderr=subprocess.STDOUT,
+                                    text=True, env=env, timeout=180)
+                out, bad = rr.stdout, rr.returncode != 0
+            except subprocess.TimeoutExpired:
+                out, bad = "timeout", True
+            if not bad:
+                continue
+            m = re.search(r"ORACLE (C\d+): (.*)", out)
+            desc = f"diff-fuzz input ({len(data)} bytes, oracle {sel}): {data[:300]!r}"
+            if m and m.group(1) == pid:
+                res["failures"].append({"idx": 0, "kind": "fuzz-oracle", "sig": None, "desc": desc,
+                                        "msg": m.group(2)[:500], "artifact": art, "target": "diff", "sel": sel})
+            elif m:
+                other += 1   # belongs to a sibling property of the same oracle family: reported by its own check
+            elif base.startswith(("crash-", "timeout-", "oom-")):
+                res["failures"].append({"idx": 0, "kind": "fuzz-" + base.split("-")[0], "sig": None, "desc": desc,
+                                        "msg": "panic/abort/timeout without an oracle message: " + out[-300:],
+                                        "artifact": art, "target": "diff", "sel": sel})
+        if other:
+            res["coverage"]["diff_fuzz"]["artifacts_of_sibling_properties"] = other
+        return res
+
+    stage.__name__ = f"diff_fuzz_{sel}"
+    return stage
